@@ -108,6 +108,22 @@ pub fn drive(tr: &mut Tracer, rng: &mut StdRng, thorough: bool) {
             tr.emit(json!({"op": "reset"}));
         }
     }
+    // division by a primitive +-2 is the exact half, however long the numerator
+    for i in 0..(if thorough { 400 } else { 80 }) {
+        let len = [40usize, 99, 100, 101, 150, 400][i % 6] + rng.gen_range(0..3);
+        let mut dg = rand_digits(rng, len);
+        if i % 3 != 0 { dg.pop(); dg.push(['1', '3', '5', '7', '9'][rng.gen_range(0..5)]); }
+        let a = dec(rng.gen_bool(0.5), &dg, rng.gen_range(-30..=30));
+        let ty = INT_TYPES[i % 10];
+        let two = if ty.starts_with('i') && rng.gen_bool(0.5) { dec(true, "2", 0) } else { dec(false, "2", 0) };
+        for f in [format!("val_{}", ty), format!("ref_{}", ty), format!("val_r{}", ty), format!("assign_{}", ty), format!("assign_r{}", ty)] {
+            tr.emit(json!({"op": "div", "form": f, "a": a, "b": two}));
+        }
+        let fv = json!({"bits": u128_to_json((if rng.gen_bool(0.5) { 2.0f64 } else { -2.0 }).to_bits() as u128), "w": 64});
+        for f in ["val_f64", "ref_f64", "assign_f64"] {
+            tr.emit(json!({"op": "div", "form": f, "a": a, "b": fv}));
+        }
+    }
     // 2. small operands through every spelling and every primitive type
     let n2 = if thorough { 1500 } else { 250 };
     for _ in 0..n2 {
